@@ -34,14 +34,15 @@ DURS = ["P1D", "PT2H", "P3DT4H", "PT5M6S"]
 BY_KIND = {"String": STRS, "Integer": INTS, "Float": FLTS, "DateTime": DTS, "Date": DATES, "Time": TIMES, "GUID": GUIDS, "Duration": DURS}
 
 
-def assign(term, i):
-    """fill every value slot with the i-th value of its kind; returns (term', [(kind, value)])"""
+def assign(term, i, stride=0):
+    """fill every value slot with the i-th value of its kind (stride 1: the j-th slot gets value i+j, so that slots which are
+    equal under a uniform assignment differ); returns (term', [(kind, value)])"""
     slots = []
 
     def f(node):
         k = node[0]
         if k in BY_KIND and len(node) == 2:
-            v = BY_KIND[k][i % 4]
+            v = BY_KIND[k][(i + stride * len(slots)) % 4]
             slots.append((k, v))
             return (k, v)
         return node
@@ -111,6 +112,7 @@ def spelled_in_sql(kind, v, toks):
 
 
 _SES = None
+_IN_RUN = __import__("re").compile(r"IN \(%s(?:, %s)*\)")
 
 
 def compile_django(text, cols):
@@ -154,6 +156,10 @@ def check_term(acc, term, bnames, pairs):
     acc.count("nontrivial")
     cols = colkey(typed.fields_of(term))
     variants = [assign(term, i) for i in range(4)]
+    if ns > 1 and ns <= 8:
+        # staggered assignments: which slots hold EQUAL values must not shape the SQL either
+        variants += [assign(term, 0, 1), assign(term, 2, 1)]
+        pairs = list(pairs) + [(0, 4), (1, 5), (4, 5)]
     for bname in bnames:
         outs = []
         for t_i, slots in variants:
@@ -175,8 +181,12 @@ def check_term(acc, term, bnames, pairs):
             continue
         for i, j in pairs:
             if outs[i][1] != outs[j][1]:
+                finding = None
+                if bname == "django" and _IN_RUN.sub("IN (%s)", outs[i][1]) == _IN_RUN.sub("IN (%s)", outs[j][1]):
+                    # the two texts differ only in the NUMBER of placeholders of an IN list: Django's In lookup drops equal elements
+                    finding = "django:in-list-equal-elements-collapsed"
                 acc.violation("%s:sql-differs:%s" % (bname, _kinds(outs[i][3])), {"backend": bname, "filter_a": outs[i][4], "filter_b": outs[j][4],
-                                                                                 "sql_a": outs[i][1], "sql_b": outs[j][1]})
+                                                                                 "sql_a": outs[i][1], "sql_b": outs[j][1]}, finding=finding)
                 break
         else:
             bad = None
